@@ -1,13 +1,17 @@
 (* C05 — pinned property theorems about the dial bookkeeping of the manager model (coq/Mgr).
    Statements, `exact`, Print Assumptions only.
 
-   Two groups: history-level theorems (the dial ledger as an inductive invariant over every
-   feasible event history: at most one outcome per attempt, no silence and no wedged peer at
-   quiescence) and per-handler theorems (hold for every manager state and configuration). *)
+   Groups: history-level theorems (the dial ledger as an inductive invariant over every feasible
+   event history with several transports dialled in parallel: at most one outcome per attempt,
+   no silence and no wedged peer at quiescence; what an OpenFailure / ConnectionOpened / inbound
+   connection does to an attempt owed by several transports), the address-book invariant
+   (only installed transports), the user-facing handle, malformed addresses, and per-handler
+   theorems (hold for every manager state and configuration). *)
 From Coq Require Import List NArith Bool.
 From V.C10 Require Import Model.
 From V.Mgr Require Import DialShape DialShapeProofs Model Caps Ledger LedgerInv.
 From V.Tcp Require Model Proofs Theorems.
+From V.C05 Require TcpCompose.
 Import ListNotations.
 Open Scope N_scope.
 
@@ -15,9 +19,9 @@ Open Scope N_scope.
 (* ---- the dial ledger over histories (coq/Mgr/LedgerInv.v) ---- *)
 
 (* the ledger invariant is preserved by every event the transport contract allows, for every
-   limit configuration *)
+   configuration (limits, installed transports) *)
 Theorem C05_ledger_invariant_step :
-  forall L m g e, LInv m g -> feas m g e -> LInv (fst (step L m e)) (gstep e (snd (step L m e)) g).
+  forall L m g e, LInv L m g -> feas L m g e -> LInv L (fst (step L m e)) (gstep e (snd (step L m e)) g).
 Proof. exact linv_step. Qed.
 Print Assumptions C05_ledger_invariant_step.
 
@@ -48,7 +52,8 @@ Theorem C05_no_wedge :
 Proof. exact no_wedge. Qed.
 Print Assumptions C05_no_wedge.
 
-(* at every point of every feasible history a peer that waits for an attempt is owed an answer *)
+(* at every point of every feasible history a peer that waits for an attempt is owed an answer
+   (by at least one transport in the opening phase, by the negotiating transport afterwards) *)
 Theorem C05_pending_is_owed :
   forall L es, feasible L init g0 es ->
   let '(m, g) := lrun L init g0 es in
@@ -56,17 +61,178 @@ Theorem C05_pending_is_owed :
 Proof. exact pending_is_owed. Qed.
 Print Assumptions C05_pending_is_owed.
 
-(* non-vacuity: a feasible history with an outbound dial raced by an inbound connection, a
-   failed dial and a re-dial; it ends quiescent with three attempts, two of them reported *)
+(* no panic: an event the transport contract allows never reaches a debug assertion / expect *)
+Theorem C05_no_stuck :
+  forall L m g e s, Reach L m g -> feas L m g e -> ~ In (Stuck s) (snd (step L m e)).
+Proof. exact no_stuck. Qed.
+Print Assumptions C05_no_stuck.
+
+(* ---- one attempt owed by several transports ---- *)
+
+(* a peer in the opening phase waits for a non-empty set of installed transports, each of which
+   owes an answer: dial() skipped no transport of the set *)
+Theorem C05_opening_set_owed :
+  forall L m g p c ts, Reach L m g -> state_of m p = Opening c ts ->
+  ts <> [] /\ forall u, In u ts -> installed L u = true /\ In (c, u) (g_open g).
+Proof. exact opening_set_owed. Qed.
+Print Assumptions C05_opening_set_owed.
+
+(* OpenFailure(c) and the DialFailure fan-out to the protocols are produced exactly by the step in
+   which the last transport of c's set reports failure (with the errors kept so far); the failure
+   of another transport produces no output and keeps the attempt owed on the remaining ones *)
+Theorem C05_open_failure_only_when_last :
+  forall L m g, Reach L m g ->
+  (forall c t pa, feas L m g (TrOpenFailure c t pa) ->
+     exists ts, state_of m pa = Opening c ts /\ In t ts /\
+       let '(m', os) := step L m (TrOpenFailure c t pa) in
+       let g' := gstep (TrOpenFailure c t pa) os g in
+       match remove_tr t ts with
+       | [] => os = [ProtoDialFailure pa; EvOpenFailure c (errs_of m c + 1)] /\
+               state_of m' pa = Disconnected None /\ ~ owed g' c /\ In c (g_done g')
+       | ts' => os = [] /\ state_of m' pa = Opening c ts' /\
+                (forall u, In (c, u) (g_open g') <-> In u ts') /\ errs_of m' c = errs_of m c + 1
+       end) /\
+  (forall e c n, In (EvOpenFailure c n) (snd (step L m e)) ->
+     exists t pa p d ts, e = TrOpenFailure c t pa /\ installed L t = true /\ lookup c (pending m) = Some p /\
+        state_of m p = Opening d ts /\ In t ts /\ remove_tr t ts = [] /\ n = errs_of m c + 1).
+Proof. exact open_failure_only_when_last. Qed.
+Print Assumptions C05_open_failure_only_when_last.
+
+(* ConnectionOpened(c) from one transport: cancel(c) on every transport still in the set,
+   negotiate on the winner only; afterwards no open obligation for c remains, so the contract
+   allows no further open-phase event for c *)
+Theorem C05_opened_cancels_rest :
+  forall L m g c t, Reach L m g -> feas L m g (TrOpened c t false) ->
+  exists p ts, lookup c (pending m) = Some p /\ state_of m p = Opening c ts /\ In t ts /\
+    let '(m', os) := step L m (TrOpened c t false) in
+    let g' := gstep (TrOpened c t false) os g in
+    os = map (CallCancel c) ts ++ [CallNegotiate c t] /\
+    state_of m' p = Dialing c /\ lookup c (pending m') = Some p /\
+    (forall u, ~ In (c, u) (g_open g')) /\ In c (g_neg g') /\
+    (forall u f, ~ feas L m' g' (TrOpened c u f)) /\
+    (forall u pa, ~ feas L m' g' (TrOpenFailure c u pa)).
+Proof. exact opened_cancels_rest. Qed.
+Print Assumptions C05_opened_cancels_rest.
+
+(* an inbound connection established while `Opening d ts` cancels d on every transport of ts and
+   leaves nothing owed for d *)
+Theorem C05_inbound_supersedes_all :
+  forall L m g p c t d ts, Reach L m g -> feas L m g (TrEstablished p c t true false) ->
+  state_of m p = Opening d ts -> limit_reached (max_in L) (ins m) = false ->
+  let '(m', os) := step L m (TrEstablished p c t true false) in
+  let g' := gstep (TrEstablished p c t true false) os g in
+  os = map (CallCancel d) ts ++ [CallAccept c t] /\
+  state_of m' p = Connected c None /\ lookup d (pending m') = None /\
+  (forall u, ~ In (d, u) (g_open g')) /\ ~ owed g' d /\ In d (g_super g').
+Proof. exact inbound_supersedes_all. Qed.
+Print Assumptions C05_inbound_supersedes_all.
+
+(* ---- the address book only holds addresses of installed transports ---- *)
+
+(* on every history whatsoever (no contract needed): add_known_address filters by the installed
+   transports, dial_address checks the shape and the installed transport before it records
+   anything, and the other addresses are reported by installed transports *)
+Theorem C05_kinds_installed :
+  forall L es, KInv L (fst (run L init es)).
+Proof. exact kinds_installed. Qed.
+Print Assumptions C05_kinds_installed.
+
+Theorem C05_kinds_installed_step :
+  forall L m e, KInv L m -> KInv L (fst (step L m e)).
+Proof. exact kinv_step. Qed.
+Print Assumptions C05_kinds_installed_step.
+
+(* why it matters: with an address of a transport that is not installed in the store, dial() puts
+   the transport into the Opening set, calls open() on nothing, returns Ok — nothing is owed and
+   the peer waits for ever *)
+Theorem C05_uninstalled_transport_refuted :
+  exists L m p ts,
+    ~ KInv L m /\ choice_ok L m p ts = true /\
+    let '(m', os) := do_dial_peer L m p ts [] in
+    os = [Ret RET_OK] /\ state_of m' p = Opening (next_conn m) ts /\
+    lookup (next_conn m) (pending m') = Some p /\
+    (forall g, g_open (gstep (CmdDialPeer p ts []) os g) = g_open g /\
+               g_neg (gstep (CmdDialPeer p ts []) os g) = g_neg g).
+Proof. exact uninstalled_transport_refuted. Qed.
+Print Assumptions C05_uninstalled_transport_refuted.
+
+(* ---- the user-facing handle (handle.rs) ---- *)
+
+(* Ok from TransportManagerHandle::dial: an attempt for the peer is already owed an outcome, or
+   the manager executes dial() in the same state and opens on >= 1 transport, or the manager
+   refuses for the connection limit (only logged: known finding class 2); an error queues nothing
+   and changes nothing *)
+Theorem C05_handle_gate_sound :
+  forall L m g p ts clog, Reach L m g -> feas L m g (HDialPeer p ts [] clog) ->
+  let '(m', os) := step L m (HDialPeer p ts [] clog) in
+  let g' := gstep (HDialPeer p ts [] clog) os g in
+  (In (Ret RET_OK) os ->
+     (exists c, dial_record (state_of m p) = Some c /\ owed g c /\ m' = m /\ os = [Ret RET_OK]) \/
+     (limit_reached (max_out L) (outs m) = false /\ ts <> [] /\
+      os = Ret RET_OK :: map (CallOpen (next_conn m)) ts ++ [Logged RET_OK] /\
+      state_of m' p = Opening (next_conn m) ts /\
+      (forall u, In u ts -> In (next_conn m, u) (g_open g')) /\
+      lookup (next_conn m) (g_att g') = Some p) \/
+     (limit_reached (max_out L) (outs m) = true /\ m' = m /\ os = [Ret RET_OK; Logged RET_LIMIT] /\ g' = g)) /\
+  (forall code, code <> RET_OK -> In (Ret code) os -> m' = m /\ os = [Ret code]).
+Proof. exact handle_ok_sound. Qed.
+Print Assumptions C05_handle_gate_sound.
+
+(* the handle's gate and the manager's own checks agree on the same state; the only refusal of
+   a queued command is the connection limit *)
+Theorem C05_handle_gate_agrees :
+  forall L m p ts fl,
+  match handle_gate m p with
+  | HQueue =>
+      (limit_reached (max_out L) (outs m) = true /\ do_dial_peer L m p ts fl = (m, [Ret RET_LIMIT])) \/
+      (limit_reached (max_out L) (outs m) = false /\ selects L m p = true /\
+       snd (do_dial_peer L m p ts fl) =
+         fst (open_calls L (next_conn m) ts fl) ++
+         [Ret (if snd (open_calls L (next_conn m) ts fl) then RET_OK else RET_TRANSPORT)])
+  | HInProgress =>
+      do_dial_peer L m p ts fl = (m, [Ret RET_OK]) \/ do_dial_peer L m p ts fl = (m, [Ret RET_LIMIT])
+  | HErr code =>
+      do_dial_peer L m p ts fl = (m, [Ret code]) \/ do_dial_peer L m p ts fl = (m, [Ret RET_LIMIT])
+  end.
+Proof. exact handle_gate_agrees. Qed.
+Print Assumptions C05_handle_gate_agrees.
+
+Theorem C05_handle_dial_address :
+  forall L m a,
+  (existsb is_p2p a = false -> step L m (HDialAddr a false) = (m, [Ret RET_PEER_ID_MISSING])) /\
+  (existsb is_p2p a = true ->
+   step L m (HDialAddr a false) =
+     (fst (do_dial_shape L m a false), Ret RET_OK :: map demote (snd (do_dial_shape L m a false)))).
+Proof. exact handle_dial_address. Qed.
+Print Assumptions C05_handle_dial_address.
+
+(* non-vacuity: a feasible history over two transports: a dial spanning TCP and WebSocket whose
+   TCP open fails and whose WebSocket open wins, a dial raced by an inbound connection (cancelled
+   on both transports), a failed dial and a re-dial through the handle; it ends quiescent *)
 Example C05_feasible_history :
-  let L := mkLimits (Some 2) (Some 2) in
-  let es := [CmdAddAddr 1; CmdDialPeer 1 false; AllocConn; TrEstablished 1 1 true false;
-             AcceptDone 1 true; CmdDialAddr 2 false; TrDialFailure 2 2; CmdDialAddr 2 false;
-             TrEstablished 2 3 false false; AcceptDone 3 true] in
+  let L := mkLimits (Some 3) (Some 3) [TCP; WS] in
+  let es := [CmdAddAddr 1 TCP; CmdAddAddr 1 WS; CmdDialPeer 1 [TCP; WS] []; TrOpenFailure 0 TCP 1;
+             TrOpened 0 WS false; TrEstablished 1 0 WS false false; AcceptDone 0 true;
+             CmdAddAddr 2 TCP; CmdAddAddr 2 WS; HDialPeer 2 [TCP; WS] [] false; AllocConn;
+             TrEstablished 2 2 TCP true false; AcceptDone 2 true;
+             CmdDialAddr 3 WS false; TrDialFailure 3 WS 3; CmdAddAddr 3 TCP; CmdDialPeer 3 [TCP; WS] [];
+             TrOpenFailure 4 WS 3; TrOpenFailure 4 TCP 3] in
   feasible L init g0 es /\
   (let '(m, g) := lrun L init g0 es in
-   quiescent m g /\ map fst (g_att g) = [3; 2; 0] /\ g_done g = [3; 2; 1] /\ g_super g = [0]).
+   quiescent m g /\ map fst (g_att g) = [4; 3; 1; 0] /\ g_done g = [4; 3; 2; 0] /\ g_super g = [1]) /\
+  last (snd (run L init es)) [] = [ProtoDialFailure 3; EvOpenFailure 4 2].
 Proof. vm_compute. repeat split; auto. Qed.
+
+(* non-vacuity of the choice: with one free outbound slot and a tcp and a ws address stored, the
+   address book may hand out either one (by score: C10), never both; without limit it hands out both *)
+Example C05_capacity_one_choice :
+  let m := fst (run (mkLimits None (Some 1) [TCP; WS]) init [CmdAddAddr 1 TCP; CmdAddAddr 1 WS]) in
+  choice_ok (mkLimits None (Some 1) [TCP; WS]) m 1 [TCP] = true /\
+  choice_ok (mkLimits None (Some 1) [TCP; WS]) m 1 [WS] = true /\
+  choice_ok (mkLimits None (Some 1) [TCP; WS]) m 1 [TCP; WS] = false /\
+  choice_ok (mkLimits None None [TCP; WS]) m 1 [TCP] = false /\
+  choice_ok (mkLimits None None [TCP; WS]) m 1 [WS; TCP] = true.
+Proof. vm_compute. repeat split. Qed.
 
 (* ---- malformed or adversarial addresses handed to dial_address (coq/Mgr/DialShape*.v) ---- *)
 
@@ -93,14 +259,14 @@ Theorem C05_dial_address_refusals :
 Proof. exact dial_shape_refusals. Qed.
 Print Assumptions C05_dial_address_refusals.
 
-(* ... and a refused address changes nothing and calls nothing: no stuck peer *)
+(* ... and a refused address (or one whose transport is not installed) changes nothing and calls
+   nothing: no stuck peer *)
 Theorem C05_refused_address_unchanged :
-  forall L m a, (forall p, dial_shape LISTEN a <> SvTcp p) ->
-  exists code, do_dial_shape L m a = (m, [Ret code]).
-Proof.
-  intros L m a H. unfold do_dial_shape. destruct (limit_reached _ _); [eexists; reflexivity|].
-  destruct (dial_shape LISTEN a) as [code|p|p]; [eexists; reflexivity | exfalso; eapply H; reflexivity | eexists; reflexivity].
-Qed.
+  forall L m a f,
+  (forall p, dial_shape LISTEN a = SvTcp p -> installed L TCP = false) ->
+  (forall p, dial_shape LISTEN a = SvWs p -> installed L WS = false) ->
+  exists code, do_dial_shape L m a f = (m, [Ret code]).
+Proof. exact refused_address_unchanged. Qed.
 Print Assumptions C05_refused_address_unchanged.
 
 (* the check before the `fix:` commit accepted an address for one peer that the TCP transport
@@ -114,58 +280,71 @@ Print Assumptions C05_dial_address_unfixed_refuted.
 
 (* ---- per-handler theorems ---- *)
 
-(* once a peer has no open connection and no owed attempt, a dial is actually attempted *)
+(* once a peer has no open connection and no owed attempt, a dial is actually attempted: open is
+   called on every transport of any set the address book allows (a non-empty set) *)
 Theorem C05_redial_attempted :
-  forall L m p,
-  state_of m p = Disconnected None -> mem p (known m) = true -> p <> LOCAL ->
+  forall L m p ts,
+  state_of m p = Disconnected None -> p <> LOCAL ->
   limit_reached (max_out L) (outs m) = false ->
-  let '(m', os) := do_dial_peer L m p false in
-  os = [CallOpen (next_conn m); Ret RET_OK] /\
-  state_of m' p = Opening (next_conn m) /\
+  KInv L m -> choice_ok L m p ts = true ->
+  let '(m', os) := do_dial_peer L m p ts [] in
+  ts <> [] /\
+  os = map (CallOpen (next_conn m)) ts ++ [Ret RET_OK] /\
+  state_of m' p = Opening (next_conn m) ts /\
   lookup (next_conn m) (pending m') = Some p /\
   next_conn m' = next_conn m + 1.
 Proof. exact redial_attempted. Qed.
 Print Assumptions C05_redial_attempted.
 
 Theorem C05_redial_addr_attempted :
-  forall L m p,
-  state_of m p = Disconnected None ->
-  limit_reached (max_out L) (outs m) = false ->
-  let '(m', os) := do_dial_addr L m p false in
-  os = [CallDial (next_conn m); Ret RET_OK] /\
+  forall L m p t a,
+  state_of m p = Disconnected None -> installed L t = true ->
+  let '(m', os) := do_dial_addr L m p t a false in
+  os = [CallDial (next_conn m) t; Ret RET_OK] /\
   state_of m' p = Dialing (next_conn m) /\
   lookup (next_conn m) (pending m') = Some p.
 Proof. exact redial_addr_attempted. Qed.
 Print Assumptions C05_redial_addr_attempted.
 
+Theorem C05_redial_addr_event :
+  forall L m p t,
+  state_of m p = Disconnected None -> installed L t = true ->
+  limit_reached (max_out L) (outs m) = false ->
+  let '(m', os) := step L m (CmdDialAddr p t false) in
+  os = [CallDial (next_conn m) t; Ret RET_OK] /\
+  state_of m' p = Dialing (next_conn m) /\
+  lookup (next_conn m) (pending m') = Some p.
+Proof. exact redial_addr_event. Qed.
+Print Assumptions C05_redial_addr_event.
+
 (* a refused dial request (already connected / in progress / limit / self) changes nothing *)
 Theorem C05_refused_unchanged :
-  forall L m p f, can_dial (state_of m p) <> GateOk -> fst (do_dial_peer L m p f) = m.
+  forall L m p ts fl, can_dial (state_of m p) <> GateOk -> fst (do_dial_peer L m p ts fl) = m.
 Proof. exact dial_peer_refused_unchanged. Qed.
 Print Assumptions C05_refused_unchanged.
 
 (* never a duplicate failure: a failure report consumes the pending attempt it names *)
 Theorem C05_dial_failure_consumes :
-  forall m c pa,
-  In (EvDialFailure c pa) (snd (do_dial_failure m c pa)) ->
-  lookup c (pending (fst (do_dial_failure m c pa))) = None /\ lookup c (pending m) <> None.
+  forall m c t pa,
+  In (EvDialFailure c pa) (snd (do_dial_failure m c t pa)) ->
+  lookup c (pending (fst (do_dial_failure m c t pa))) = None /\ lookup c (pending m) <> None.
 Proof. exact dial_failure_consumes. Qed.
 Print Assumptions C05_dial_failure_consumes.
 
 Theorem C05_open_failure_consumes :
-  forall m c pa,
-  In (EvOpenFailure c) (snd (do_open_failure m c pa)) ->
-  lookup c (pending (fst (do_open_failure m c pa))) = None /\ lookup c (pending m) <> None.
+  forall m c t pa n,
+  In (EvOpenFailure c n) (snd (do_open_failure m c t pa)) ->
+  lookup c (pending (fst (do_open_failure m c t pa))) = None /\ lookup c (pending m) <> None.
 Proof. exact open_failure_consumes. Qed.
 Print Assumptions C05_open_failure_consumes.
 
 (* a failed dial produces exactly one report to the protocols and one to the application, and
    leaves the peer without dial record (it can be dialled again) *)
 Theorem C05_dial_failure_clears :
-  forall m c p,
+  forall m c t p,
   lookup c (pending m) = Some p -> dial_record (state_of m p) = Some c ->
-  state_of m p <> Opening c ->
-  let '(m', os) := do_dial_failure m c p in
+  (forall ts, state_of m p <> Opening c ts) ->
+  let '(m', os) := do_dial_failure m c t p in
   os = [ProtoDialFailure p; EvDialFailure c p] /\ settled (state_of m' p).
 Proof. exact dial_failure_clears. Qed.
 Print Assumptions C05_dial_failure_clears.
@@ -173,12 +352,12 @@ Print Assumptions C05_dial_failure_clears.
 (* F-C05a repaired: an outbound connection rejected by the connection limit no longer wedges
    the peer in a dialing state *)
 Theorem C05_limit_reject_settles :
-  forall L m1 p c f,
+  forall L m1 p c t f,
   limit_reached (max_out L) (outs m1) = true ->
-  dial_record (state_of m1 p) = Some c -> state_of m1 p <> Opening c ->
+  dial_record (state_of m1 p) = Some c -> (forall ts, state_of m1 p <> Opening c ts) ->
   existsb (fun kp : N * pstate => fst kp =? p) (peers m1) = true ->
-  settled (state_of (fst (do_established_checked L m1 p c false f)) p) /\
-  snd (do_established_checked L m1 p c false f) = [CallReject c].
+  settled (state_of (fst (do_established_checked L m1 p c t false f)) p) /\
+  snd (do_established_checked L m1 p c t false f) = [CallReject c t].
 Proof. exact limit_reject_settles. Qed.
 Print Assumptions C05_limit_reject_settles.
 
@@ -188,13 +367,15 @@ Theorem C05_settled_can_dial :
 Proof. exact settled_can_dial. Qed.
 Print Assumptions C05_settled_can_dial.
 
-(* no panic: the only events that reach a debug assertion carry connection ids that contradict
-   the manager's own records (which a transport never produces) *)
+(* no panic: the only events that reach a debug assertion / expect carry connection ids that
+   contradict the manager's own records (which a transport never produces), or find a peer
+   opening on a transport that is not installed (excluded by C05_opening_set_owed) *)
 Theorem C05_stuck_only_on_inconsistent_ids :
   forall L m e s,
   In (Stuck s) (snd (step L m e)) ->
-  (exists c f, e = TrOpened c f /\ lookup c (pending m) = None) \/
-  (exists p c l f q, e = TrEstablished p c l f /\ lookup c (pending m) = Some q /\ q <> p).
+  (exists c t f, e = TrOpened c t f /\ lookup c (pending m) = None) \/
+  (exists p c t l f q, e = TrEstablished p c t l f /\ lookup c (pending m) = Some q /\ q <> p) \/
+  (exists p c ts t, state_of m p = Opening c ts /\ In t ts /\ installed L t = false).
 Proof. exact stuck_only_on_inconsistent_ids. Qed.
 Print Assumptions C05_stuck_only_on_inconsistent_ids.
 
@@ -202,11 +383,21 @@ Print Assumptions C05_stuck_only_on_inconsistent_ids.
    rejected by the limit at establishment; the peer is settled (repaired) but no report names the
    attempt (recorded as a known finding) *)
 Example C05_limit_rejection_is_silent :
-  let L := mkLimits None (Some 1) in
-  let es := [CmdDialAddr 1 false; CmdDialAddr 2 false; TrEstablished 1 0 false false;
-             TrEstablished 2 1 false false] in
+  let L := mkLimits None (Some 1) [TCP; WS] in
+  let es := [CmdDialAddr 1 TCP false; CmdDialAddr 2 WS false; TrEstablished 1 0 TCP false false;
+             TrEstablished 2 1 WS false false] in
   let '(m, os) := run L init es in
-  last os [] = [CallReject 1] /\ state_of m 2 = Disconnected None /\ pending m = [].
+  last os [] = [CallReject 1 WS] /\ state_of m 2 = Disconnected None /\ pending m = [].
+Proof. vm_compute. repeat split. Qed.
+
+(* the second known finding: the handle accepts a dial request at the connection limit, the
+   manager refuses it, the refusal is only logged *)
+Example C05_handle_limit_is_silent :
+  let L := mkLimits None (Some 1) [TCP; WS] in
+  let es := [CmdDialAddr 1 TCP false; TrEstablished 1 0 TCP false false; AcceptDone 0 true;
+             CmdAddAddr 2 WS; HDialPeer 2 [WS] [] false] in
+  let '(m, os) := run L init es in
+  last os [] = [Ret RET_OK; Logged RET_LIMIT] /\ state_of m 2 = Disconnected None /\ pending m = [].
 Proof. vm_compute. repeat split. Qed.
 
 
@@ -417,3 +608,131 @@ Example C05_tcp_history :
    [Tcp.Model.OEv (Tcp.Model.TPendingInbound 3)]; [Tcp.Model.ORet true];
    [Tcp.Model.OEv (Tcp.Model.TEstablished 3 7 true)]].
 Proof. exact Tcp.Theorems.history1_ok. Qed.
+
+
+(* ---- manager + TcpTransport together (coq/C05/TcpCompose.v) ----
+   The manager model and the TCP transport model are plugged into each other: every call of the
+   manager is executed by the TCP model, every event of the TCP model is handled by the manager, the
+   id counter is shared. Inputs from outside: XCmd (user / protocol side: dial requests, address
+   additions, closed connections, accept futures) and XNet (network / runtime: a socket arrives, an
+   attempt of a pending future ends, a deadline fires, the transport is polled). `xfeasible` keeps of
+   `feas` only the clauses about the address store (choice_ok), the protocols (accept futures
+   succeed) and the kind of the inputs; TCP is the one installed transport. *)
+
+(* the transport contract is no assumption any more: every history of outside inputs makes the
+   manager see an event history that satisfies `feas`, and the manager part of the composed run is
+   the manager model run on that history *)
+Theorem C05_sys_feasible :
+  forall L, (forall t, installed L t = true <-> t = TCP) ->
+  forall xs, TcpCompose.xfeasible L TcpCompose.sys0 xs ->
+  feasible L init g0 (TcpCompose.sys_trace L TcpCompose.sys0 xs) /\
+  (TcpCompose.s_m (TcpCompose.sys_run L TcpCompose.sys0 xs), TcpCompose.s_g (TcpCompose.sys_run L TcpCompose.sys0 xs)) =
+  lrun L init g0 (TcpCompose.sys_trace L TcpCompose.sys0 xs).
+Proof. exact TcpCompose.sys_feasible0. Qed.
+Print Assumptions C05_sys_feasible.
+
+(* ... one input at a time, from any state the coupling invariant holds in *)
+Theorem C05_sys_step :
+  forall L, (forall t, installed L t = true <-> t = TCP) ->
+  forall st x, TcpCompose.Inv L st -> TcpCompose.xok L st x ->
+  feasible L (TcpCompose.s_m st) (TcpCompose.s_g st) (TcpCompose.sys_evs L st x) /\
+  TcpCompose.Inv L (TcpCompose.sys_step L st x).
+Proof. exact TcpCompose.sys_step_inv. Qed.
+Print Assumptions C05_sys_step.
+
+(* the ledger theorems for manager + TCP, without assuming anything about the transport *)
+Theorem C05_sys_at_most_one_outcome :
+  forall L, (forall t, installed L t = true <-> t = TCP) ->
+  forall xs, TcpCompose.xfeasible L TcpCompose.sys0 xs ->
+  NoDup (terminals L init (TcpCompose.sys_trace L TcpCompose.sys0 xs)).
+Proof. exact TcpCompose.sys_at_most_one_outcome. Qed.
+Print Assumptions C05_sys_at_most_one_outcome.
+
+Theorem C05_sys_no_silence :
+  forall L, (forall t, installed L t = true <-> t = TCP) ->
+  forall xs, TcpCompose.xfeasible L TcpCompose.sys0 xs ->
+  let st := TcpCompose.sys_run L TcpCompose.sys0 xs in
+  quiescent (TcpCompose.s_m st) (TcpCompose.s_g st) ->
+  forall c p, lookup c (g_att (TcpCompose.s_g st)) = Some p ->
+    In c (g_done (TcpCompose.s_g st)) \/
+    (In c (g_super (TcpCompose.s_g st)) /\ In p (g_rep (TcpCompose.s_g st))) \/
+    In c (g_limrej (TcpCompose.s_g st)).
+Proof. exact TcpCompose.sys_no_silence. Qed.
+Print Assumptions C05_sys_no_silence.
+
+Theorem C05_sys_no_wedge :
+  forall L, (forall t, installed L t = true <-> t = TCP) ->
+  forall xs, TcpCompose.xfeasible L TcpCompose.sys0 xs ->
+  let st := TcpCompose.sys_run L TcpCompose.sys0 xs in
+  quiescent (TcpCompose.s_m st) (TcpCompose.s_g st) -> forall p, settled (state_of (TcpCompose.s_m st) p).
+Proof. exact TcpCompose.sys_no_wedge. Qed.
+Print Assumptions C05_sys_no_wedge.
+
+(* quiescence is a fact about the TCP model's own ledger: nothing owed for an open, nothing owed
+   for a dial / negotiate, no accept future of the protocols pending *)
+Theorem C05_sys_quiescent :
+  forall L, (forall t, installed L t = true <-> t = TCP) ->
+  forall xs, TcpCompose.xfeasible L TcpCompose.sys0 xs ->
+  let st := TcpCompose.sys_run L TcpCompose.sys0 xs in
+  quiescent (TcpCompose.s_m st) (TcpCompose.s_g st) <->
+  Tcp.Model.g_open (TcpCompose.s_tg st) = [] /\ Tcp.Model.g_neg (TcpCompose.s_tg st) = [] /\
+  accepting (TcpCompose.s_m st) = [].
+Proof. exact TcpCompose.sys_quiescent0. Qed.
+Print Assumptions C05_sys_quiescent.
+
+(* what is left to the network, made explicit: whatever the manager waits for is backed by a
+   pending future of the TCP model (an un-cancelled open future with its address table, or a dial /
+   negotiate future) ... *)
+Theorem C05_sys_owed_is_pending :
+  forall L, (forall t, installed L t = true <-> t = TCP) ->
+  forall xs c, TcpCompose.xfeasible L TcpCompose.sys0 xs ->
+  let st := TcpCompose.sys_run L TcpCompose.sys0 xs in
+  owed (TcpCompose.s_g st) c ->
+  (exists f rem, Tcp.Model.lookup f (Tcp.Model.praw (TcpCompose.s_t st)) = Some c /\
+                 Tcp.Model.lookup f (Tcp.Model.attempts (TcpCompose.s_t st)) = Some rem /\
+                 ~ In f (Tcp.Model.aborted (TcpCompose.s_t st))) \/
+  (exists f k, Tcp.Model.lookup f (Tcp.Model.pconn (TcpCompose.s_t st)) = Some (c, k) /\ Tcp.Model.is_inb k = false).
+Proof. exact TcpCompose.sys_owed_is_pending0. Qed.
+Print Assumptions C05_sys_owed_is_pending.
+
+(* ... and there is a network / runtime input (the deadline of the open fires, the dial attempt
+   ends, the transport is polled) that is allowed next and whose handling hands the manager an
+   answer for that connection id: the only liveness assumption left is that the network lets every
+   pending future end and the runtime polls the transport *)
+Theorem C05_sys_progress :
+  forall L, (forall t, installed L t = true <-> t = TCP) ->
+  forall xs c, TcpCompose.xfeasible L TcpCompose.sys0 xs ->
+  let st := TcpCompose.sys_run L TcpCompose.sys0 xs in
+  owed (TcpCompose.s_g st) c ->
+  exists n, Tcp.Model.polls n = true /\ TcpCompose.xfeasible L TcpCompose.sys0 (xs ++ [TcpCompose.XNet n]) /\
+            exists e, In e (TcpCompose.sys_evs L st (TcpCompose.XNet n)) /\ TcpCompose.answers c e.
+Proof. exact TcpCompose.sys_progress0. Qed.
+Print Assumptions C05_sys_progress.
+
+(* no debug assertion / expect of the manager is reached in the composed system *)
+Theorem C05_sys_no_stuck :
+  forall L, (forall t, installed L t = true <-> t = TCP) ->
+  forall xs x s, TcpCompose.xfeasible L TcpCompose.sys0 (xs ++ [x]) ->
+  forall e m g es2, TcpCompose.sys_evs L (TcpCompose.sys_run L TcpCompose.sys0 xs) x = e :: es2 ->
+  (m, g) = (TcpCompose.s_m (TcpCompose.sys_run L TcpCompose.sys0 xs), TcpCompose.s_g (TcpCompose.sys_run L TcpCompose.sys0 xs)) ->
+  ~ In (Stuck s) (snd (step L m e)).
+Proof. exact TcpCompose.sys_no_stuck. Qed.
+Print Assumptions C05_sys_no_stuck.
+
+(* non-vacuity: a composed history with TCP alone installed — dial by peer id with two addresses
+   (the first answered by another identity), ConnectionOpened, cancel + negotiate, the connection
+   reported and accepted; an inbound socket accepted and authenticated; a dial through the handle
+   whose attempt fails; nothing is owed at the end *)
+Example C05_sys_history :
+  TcpCompose.xfeasible TcpCompose.L_tcp TcpCompose.sys0 TcpCompose.history2 /\
+  TcpCompose.sys_trace TcpCompose.L_tcp TcpCompose.sys0 TcpCompose.history2 =
+    [CmdAddAddr 5 TCP; CmdDialPeer 5 [TCP] []; TrOpened 0 TCP false; TrEstablished 5 0 TCP false false;
+     AcceptDone 0 true; AllocConn; TrPendingInbound 1 TCP; TrEstablished 7 1 TCP true false; AcceptDone 1 true;
+     HDialAddr (canon 6 TCP) false; TrDialFailure 2 TCP 6] /\
+  snd (run TcpCompose.L_tcp init (TcpCompose.sys_trace TcpCompose.L_tcp TcpCompose.sys0 TcpCompose.history2)) =
+    [[]; [CallOpen 0 TCP; Ret RET_OK]; [CallCancel 0 TCP; CallNegotiate 0 TCP]; [CallAccept 0 TCP];
+     [EvEstablished 5 0]; [Ret (RET_ALLOC + 1)]; [CallAcceptPending 1 TCP]; [CallAccept 1 TCP];
+     [EvEstablished 7 1]; [Ret RET_OK; CallDial 2 TCP; Logged RET_OK]; [ProtoDialFailure 6; EvDialFailure 2 6]] /\
+  quiescent (TcpCompose.s_m (TcpCompose.sys_run TcpCompose.L_tcp TcpCompose.sys0 TcpCompose.history2))
+            (TcpCompose.s_g (TcpCompose.sys_run TcpCompose.L_tcp TcpCompose.sys0 TcpCompose.history2)).
+Proof. exact TcpCompose.history2_ok. Qed.
